@@ -46,6 +46,7 @@ func (c *Context) newLoop(name string, arg *Decimal, precision uint32, maxItersP
 // done reports whether the loop is done. If it does not converge
 // after the maximum number of iterations, it returns an error.
 func (l *loop) done(z *Decimal) (bool, error) {
+	verifLoopTick("loop.done")
 	if _, err := l.c.Sub(&l.delta, &l.prevZ, z); err != nil {
 		return false, err
 	}
